@@ -32,16 +32,16 @@ THEOREMS = ["conc_params", "conc_params_zero", "mixture_density_identity", "eta_
             "conc_gibbs", "conc_gibbs_measure", "conc_gibbs_set", "mixtureMeasure_prob", "posterior_finite_pos"]
 BUDGET = {"quick": 60, "thorough": 420}
 EXPLANATION = (
-    "Partial proof.  Proved in Lean (kernel-checked, over the reals with Mathlib's gammaPDFReal / betaPDFReal): the model's "
+    "Proof complete for the uncensored update; the level is `other` only because of the known finding F12 (the 1e-10 floor).  Proved in Lean (kernel-checked, over the reals with Mathlib's gammaPDFReal / betaPDFReal): the model's "
     "draw parameters are those of the property text (Beta(alpha+1, n); odds pi/(1-pi) = (a+K-1)/(n(b - log eta)); Gamma shapes "
     "a+K / a+K-1, rate b - log eta); the two-component mixture density equals C x^(a+K-2) (x+n) exp(-x(b - log eta)) with C free "
     "of x; the joint prior(alpha) alpha^(K-1) (alpha+n) eta^alpha (1-eta)^(n-1) is, in eta, a multiple of the Beta(alpha+1, n) "
     "density and, in alpha, a multiple of that mixture density; its eta-integral is Gamma(n) prior(alpha) alpha^K "
     "Gamma(alpha)/Gamma(alpha+n) (the conditional posterior of the concentration given K, n); K and n are the number of clones "
-    "and of non-outlier data points; the value assigned by the run loop is the one every later density evaluation reads.  NOT "
-    "formalised (cited, OBLIGATION-OPEN conc_gibbs): the measure-theoretic step 'drawing each coordinate from its exact "
-    "conditional of a joint density leaves the marginal invariant' for continuous densities, and that scipy samples from the "
-    "distribution whose parameters it is handed.  All exactness statements are for the UNCENSORED Gamma draw: the code floors "
+    "and of non-outlier data points; the value assigned by the run loop is the one every later density evaluation reads; and "
+    "(conc_gibbs, from a general two-stage Gibbs theorem over s-finite measures proved with Tonelli) the kernel 'eta ~ "
+    "Beta(alpha+1, n), then alpha' ~ mixture(eta)' leaves the measure with density target(a,b,K,n) on (0,inf) invariant.  NOT "
+    "covered by a theorem: that scipy samples from the distribution whose parameters it is handed.  All exactness statements are for the UNCENSORED Gamma draw: the code floors "
     "the draw at 1e-10, which is a known finding (F12) — with the run command's prior a=b=0.01 and one clone about 80% of the "
     "conditional mass lies below the floor.  The tie to the code is the recorded-parameter correspondence of this run.")
 RULE = ("params: a, b, old alpha log-uniform in [1e-2, 1e2] (plus the run command's a=b=0.01), 1 <= K <= n <= 60 (thorough also n up to 1e6, a, b in [1e-4, 1e4]) and K = 0; "
@@ -55,8 +55,8 @@ RULE = ("params: a, b, old alpha log-uniform in [1e-2, 1e2] (plus the run comman
         "the update on.")
 TRUSTED = ["scipy.stats.beta / gamma / bernoulli are trusted to sample from the distribution whose parameters they are handed "
            "(only the parameters are observed); np.log, IEEE-754 arithmetic",
-           "the step 'two exact conditionals of a joint density => the marginal is invariant' (Gibbs sampling on a product "
-           "space with densities) is cited, not formalised"]
+           "the invariance theorem is stated with iterated lower Lebesgue integrals (Mathlib has no measurability of Real.Gamma, so the "
+           "kernel is not packaged as a Mathlib `Kernel`)"]
 ASSUMPTIONS = ["exactness is stated for the uncensored Gamma draw (the 1e-10 floor is known finding F12)",
                "1 <= K <= n as in the property's quantifier; K = 0 (prior draw, floored at 1e-10 too) is modelled and checked separately; K >= 1 with "
                "n = 0 (only empty clones) is outside the quantifier (the code produces nan there)",
